@@ -109,6 +109,17 @@ def run_tapped_case(ctx, kind_, idx):
     else:
         snr = rng.uniform(1, 100, n)
         kw["snr_in_db"] = False
+    if snr is not None and rng.integers(0, 3) == 0:
+        # the flag spelled out, as a Python bool or as the NumPy boolean a comparison (unit == "dB") yields
+        flag = bool(kw.get("snr_in_db", True))
+        kw["snr_in_db"] = [flag, np.bool_(flag)][int(rng.integers(0, 2))]
+    if n > 1 and t in (0, 1) and rng.integers(0, 5) == 0:
+        # one level for the whole signal, held in a one-element list / array (a configuration row): every sample still
+        # gets its OWN noise term
+        snr = [snr] if rng.integers(0, 2) else np.array([snr])
+        kw["_one_element_level"] = True
+    elif n > 1 and t == 2 and rng.integers(0, 5) == 0:
+        kw["std"] = [kw["std"]] if rng.integers(0, 2) else np.array([kw["std"]])
     if snr is not None and rng.integers(0, 4) == 0:
         # levels as they come out of a configuration table or an integer column: whole numbers in a NumPy integer
         # type, signed or unsigned, narrow or wide (10 ** (snr / 10) and sp / snr are floating-point quantities)
@@ -120,8 +131,9 @@ def run_tapped_case(ctx, kind_, idx):
             snr = dt(int(whole))
         kw["_snr_type"] = np.dtype(dt).name if dt is not int else "int"
     snr_type = kw.pop("_snr_type", None)
+    one_level = kw.pop("_one_element_level", False)
     info = {"n": n, "signal": acls, "snr": snr if not isinstance(snr, (list, np.ndarray)) else "per-sample",
-            "snr_type": snr_type, "kw": kw, "via_weaver": via_weaver}
+            "snr_type": snr_type, "one_element_level": one_level, "kw": kw, "via_weaver": via_weaver}
     if n <= 8:
         info["a"] = a
     npseed = int(rng.integers(0, 2 ** 31 - 1))
